@@ -333,8 +333,12 @@ func (state inSession) processReject(session *session, msg *Message, rej Message
 			return handleStateError(session, err)
 		}
 
-		if err := session.store.IncrNextTargetMsgSeqNum(); err != nil {
-			return handleStateError(session, err)
+		// The rejected message consumes its sequence number only if it carries the expected one:
+		// some rejects are decided before, or without, the sequence number being compared.
+		if session.checkTargetTooHigh(msg) == nil && session.checkTargetTooLow(msg) == nil {
+			if err := session.store.IncrNextTargetMsgSeqNum(); err != nil {
+				return handleStateError(session, err)
+			}
 		}
 		return state
 	}
